@@ -10,7 +10,8 @@ is executed on the REAL code (EKO.__setitem__/__getitem__/__delitem__/__contains
   * the post-state satisfies INV for the updated model (set: model[k] = v; everything else: model unchanged -- in particular reopening shows the same map).
 Base case: a freshly built EKO is the empty model.  Since the step holds from every INV state, it holds along histories of any length.
 Data independence (trusted): the code treats evolution points and values uniformly (keys only through hash / equality), so three points and two values
-exhibit every interaction.  Approximate lookup (EKO.approx) is not covered here.
+exhibit every interaction.  Approximate lookup (EKO.approx): unique point within tolerance / None / ValueError when ambiguous, on an enumerated set of
+(stored points, query) placements around the tolerance boundary, for loaded and unloaded stores.
 """
 import itertools
 
@@ -39,6 +40,16 @@ def replay():
         del eko[(20.0, 5)]                      # unload of a point that is not in the store
         if set(eko) != model: out.append(f"after unloading a point that was never stored, iteration shows {sorted(eko)} instead of {sorted(model)}")
         if ((20.0, 5) in eko): out.append("after unloading a point that was never stored, it is reported as a member")
+        # approximate lookup: an exact hit with a second point within tolerance is ambiguous
+        eko[(100.0, 5)] = op; eko[(100.0 * (1 + 2e-7), 5)] = op
+        try:
+            r = eko.approx((100.0, 5)); out.append(f"approx of a point with a second stored point within tolerance returned {r} instead of raising")
+        except ValueError:
+            pass
+        if eko.approx((150.0, 5)) is not None: out.append("approx of an isolated query is not None")
+        if eko.approx((100.0 * (1 + 5e-6), 5)) is not None: out.append("approx beyond the tolerance is not None")
+        del eko[(100.0, 5)]; del eko[(100.0 * (1 + 2e-7), 5)]
+        model = model | {(100.0, 5), (100.0 * (1 + 2e-7), 5)}
         del eko[(10.0, 4)]
         got = eko[(10.0, 4)]
         if got is None or not np.array_equal(got.operator, op.operator): out.append("a stored operator is not read back after unloading it")
@@ -75,7 +86,7 @@ def run(chk):
     chk.trust("ghost file system call contracts (contracts/ghostfs.py)", "data independence: keys enter only through hash / equality, values are opaque -- 3 points x 2 values exhibit every interaction",
               "lemma: induction over the history (base: empty new EKO; step: checked from every INV state)", "close = tar of the working directory and reopen = its extraction (C38 / C36)",
               "Operator.save / load are inverse on the bytes (C36)")
-    chk.uncovered("approximate lookup EKO.approx (unique point within tolerance / None / error when ambiguous)", "hash collisions of encode(): abs(hash) folded to 8 bytes")
+    chk.uncovered("approximate lookup is checked on an enumerated set of placements (exact hits, one / two neighbours within tolerance, other nf), not for arbitrary floats", "hash collisions of encode(): abs(hash) folded to 8 bytes")
 
     class Val:
         """operator payload token with the shape EKO.load inspects"""
@@ -237,6 +248,43 @@ def run(chk):
             f = failures.get((o, w), [])
             chk.ground(f"C37.step.{o}[{w}]", not f, fn="eko.io.struct:EKO" if o not in ("unload",) else "eko.io.inventory:Inventory.__delitem__", replay=rp,
                        goal=f"from every INV state: {o} on a(n) {w} answers like the dictionary model and re-establishes INV", detail=f"{len(f)} transitions fail, e.g. {f[0]}" if f else "")
+        # ---- approximate lookup: unique point within tolerance / None / error when ambiguous -------------------------------------------------------
+        import math
+        base = 100.0
+        POOL = [(base, 5), (base * (1 + 2e-7), 5), (base * (1 + 5e-6), 5), (base, 4), (2 * base, 5)]
+        QUERIES = [(base, 5), (base * (1 + 1e-7), 5), (base * (1 + 2e-7), 5), (base * (1 + 3e-6), 5), (base * (1 + 5e-6), 5), (base * (1 - 4e-7), 5), (1.5 * base, 5), (base, 4), (base, 6), (2 * base * (1 - 5e-7), 5)]
+        rtol, atol = 1e-6, 1e-10
+        n_approx, bad_approx = 0, []
+        for r in range(0, 4):
+            for stored in itertools.combinations(POOL, r):
+                for loaded in (False, True):
+                    state = {k: PER_KEY[0] for k in KEYS}
+                    fs, eko, model, undo = build(state)
+                    try:
+                        for ep in stored:
+                            eko[ep] = mkop("a")
+                            if not loaded:
+                                del eko[ep]
+                        for q in QUERIES:
+                            n_approx += 1
+                            close = [ep for ep in stored if ep[1] == q[1] and abs(q[0] - ep[0]) <= atol + rtol * abs(ep[0])]
+                            try:
+                                got = eko.approx(q, rtol=rtol, atol=atol)
+                                outcome = ("value", got)
+                            except ValueError:
+                                outcome = ("ambiguous", None)
+                            want = ("value", None) if not close else (("value", close[0]) if len(close) == 1 else ("ambiguous", None))
+                            ok = outcome[0] == want[0] and (outcome[1] is None) == (want[1] is None) and (outcome[1] is None or (float(outcome[1][0]) == want[1][0] and int(outcome[1][1]) == want[1][1]))
+                            if not ok:
+                                bad_approx.append(f"stored {list(stored)} ({'loaded' if loaded else 'unloaded'}), query {q}: approx gives {outcome}, specification {want}")
+                    except Exception as e:
+                        bad_approx.append(f"stored {list(stored)}: {type(e).__name__}: {e}")
+                    finally:
+                        undo()
+        chk.ground("C37.approx.unique_none_or_ambiguous", not bad_approx, fn="eko.io.struct:EKO.approx", replay=rp,
+                   goal=f"approx(q) == the unique stored point with the same nf within |q - s| <= atol + rtol |s|, None if there is none, ValueError if there are several ({n_approx} (store, query) placements: exact hits, one / two neighbours within tolerance, other nf, loaded and unloaded)",
+                   detail="; ".join(bad_approx[:3]))
+        chk.configs += n_approx
         chk.ground("C37.step.transitions_enumerated", n_trans == len(PER_KEY) ** len(KEYS) * len(OPS), fn="eko.io.struct:EKO", goal=f"all {len(PER_KEY) ** len(KEYS)} INV states x {len(OPS)} operations executed", detail=str(n_trans), replay=rp)
         chk.configs += n_trans
         chk.extra.update(states=len(PER_KEY) ** len(KEYS), transitions=n_trans, traces_validated_against_impl=n_trans,
